@@ -29,6 +29,11 @@ def run(ctx):
         nr = 4000 if ctx.thorough() else 400
         for i in range(nsh):
             jobs.append(("rnd:%s:%d" % (k, i), [exe, "rnd", k, str(nr), str(i), str(nsh), str(ctx.seed)]))
+    # weak-memory correspondence: the real overflowing queue run with injected C11-permitted stale values
+    # against the release/acquire view model (kind label oq: same access sites as the SC model)
+    nra = 24000 if ctx.thorough() else 2400
+    for i in range(nsh):
+        jobs.append(("ras:oq:%d" % i, [exe, "ras", "oq", str(nra), str(i), str(nsh), str(ctx.seed), "50"]))
     r = vlib.run_pipelines(jobs, driver)
     sites = {}
     ctx.cov.update({
@@ -40,6 +45,14 @@ def run(ctx):
                 "CAS outcome, return values, final content) with the Coq step model run on the same schedule. distinct = distinct event traces; "
                 "non-trivial = at least one store/successful CAS" % bound,
         "exhaustive": False,
+        "weak_memory_correspondence": {
+            "rule": "seeded random schedules of fixed-role programs (1..6 pushes || 1..6 pops, capacities 0..3) of the REAL SafelyOverflowingIndexQueue in which the value returned by a load or a failed "
+                    "compare-exchange of a cursor is replaced, with probability 1/2, by an older value of that location not older than what the thread has seen (sched::stale_enable); the driver lets the "
+                    "view model (OverflowQueueRA.v, code ordering table) choose its staleness oracle from the observed value and compares every access, return value and the final content; an "
+                    "injection the model's cross-location bounds do not permit discards the execution",
+            "executions": nra, "stale_values_injected": r["extra"].get("stale_values_injected", 0),
+            "executions_with_stale_value": r["extra"].get("executions_with_stale_value", 0),
+            "discarded_invalid_injection": r["extra"].get("discarded_invalid_injection", 0)},
     })
     smp = vlib.extract_case(jobs[0][1], driver, 5)
     ctx.cov["samples"] = [{"job": jobs[0][0], "execution": smp[:40]}]
